@@ -804,6 +804,14 @@ theorem example_native_nested :
   depth counter.  That the stack, the global table, open `dynamic-wind` extents, handlers and the heap of the
   real engine are in a usable state after the error is not modelled (probe evaluations of the differential
   run).
-* Wall-clock latency (`run_with_timeout`), Relaxed visibility of the two stores. -/
+* Wall-clock latency (`run_with_timeout`), Relaxed visibility of the two stores.
+* A REPAIR of K17a / K17c exists as a model only (`SteelVerif.C15.ModelR`: the controller as one word of request
+  bits — `interrupt()` sets INTERRUPT, the stopper's resume clears STOP only, the exit loops wait on STOP only — in
+  the N-thread handshake model, so "more than one engine thread" and "requests to a thread parked in another thread's
+  round" ARE part of it): `C15.R.interrupt_not_lost` (for every number of threads and every schedule without a host
+  `resume()` on that controller the request stays pending, whatever rounds overlap it — the full `InterruptNotLost`
+  clause, no guard), `C15.R.poll_delivers` (the next poll returns the error), `C15.R.interruptInRound_delivered`
+  (the K17a schedule, by evaluation).  No patch of /repo has been written for it; the bound `B + 5` and the program
+  shapes are not restated there. -/
 
 end SteelVerif.C17
